@@ -2,7 +2,7 @@
    [rfc_head] is the RFC 9112 / 3986 grammar on structured heads (alphabetic method; origin-,
    absolute-, authority- or asterisk-form target; version 1.0 / 1.1; field lines with OWS), [render]
    their wire form; the theorem holds whatever bytes [t] follow the head. *)
-From KV Require Import Lib.Bytes Model.Headers Model.Parser Spec.HttpGrammar Proofs.ParserComplete.
+From KV Require Import Lib.Bytes Model.Headers Model.Parser Spec.HttpGrammar Spec.HeaderStore Spec.ClSpec Proofs.ParserComplete.
 
 Theorem C02_complete : forall h t, rfc_head h = true -> cl_consistent (field_pairs h) = true ->
   exists r, parse_request (render h ++ t) = Ok r /\
@@ -15,6 +15,23 @@ Theorem C02_complete : forall h t, rfc_head h = true -> cl_consistent (field_pai
     q_offset r = length (render h).
 Proof. exact request_complete. Qed.
 Print Assumptions C02_complete.
+
+(* the same, with the Content-Length side condition stated by the independent value grammar of
+   Spec/HeaderStore.v (OWS 1*DIGIT OWS below 2^64; any number of leading zeros) rather than by the model's parser *)
+Theorem C02_complete_rfc : forall h t, rfc_head h = true -> cl_consistent_rfc (field_pairs h) = true ->
+  exists r, parse_request (render h ++ t) = Ok r /\
+    method_str (q_meth r) = h_method h /\
+    full (q_target r) = render_target (h_target h) /\
+    uri_path (q_target r) = Ok (target_path (h_target h)) /\
+    uri_query (q_target r) = Ok (target_query (h_target h)) /\
+    q_version r = (if h_minor h then 1 else 0)%N /\
+    q_hdrs r = headers_of (field_pairs h) /\
+    q_offset r = length (render h).
+Proof. exact request_complete_rfc. Qed.
+Print Assumptions C02_complete_rfc.
+Example C02_ex_padded_length : cl_value (bs "000000000000000000000000005 ") = Some 5%N /\
+  cl_value (bs "18446744073709551615") = Some 18446744073709551615%N /\ cl_value (bs "18446744073709551616") = None.
+Proof. vm_compute. repeat split; reflexivity. Qed.
 
 Definition ex_head : head :=
   {| h_method := bs "PATCH";
